@@ -221,7 +221,7 @@ func init() {
 		Sel: []Sel{
 			{Pattern: "parse.Position", Levels: "SF"}, {Pattern: "parse.positionContext", Levels: "SF"}, {Pattern: "parse.NewError", Levels: "SF"}, {Pattern: "parse.NewErrorLexer", Levels: "F"},
 			{Pattern: "parse.Error.*", Levels: "S"}, {Pattern: "parse.Input.PeekRune", Levels: "SF"}, {Pattern: "parse.Input.Offset", Levels: "S"},
-			{Pattern: "css.Parser.Err", Levels: "SF"}, {Pattern: "buffer.NewReader", Levels: "SF"},
+			{Pattern: "css.Parser.Err", Levels: "SF"}, {Pattern: "css.Parser.parseDeclaration", Levels: "F", OnlyTags: []string{"C15"}}, {Pattern: "buffer.NewReader", Levels: "SF"},
 			{Pattern: "json.Parser.Next", Levels: "F", OnlyTags: []string{"C15"}},
 			{Pattern: "js.Lexer.Next", Levels: "F", OnlyTags: []string{"C15"}}, {Pattern: "js.Lexer.consume*", Levels: "F", OnlyTags: []string{"C15"}},
 			{Pattern: "xml.Lexer.Next", Levels: "F", OnlyTags: []string{"C15"}}, {Pattern: "html.Lexer.shiftRawText", Levels: "F", OnlyTags: []string{"C15"}},
